@@ -32,12 +32,22 @@ def gen_config(rng, tier, versions=(0, 0, 1, 2), dims=(2, 2, 2, 3, 3, 4), bounda
     return cfg
 
 
+def make_grid(cfg):
+    from sparseSpACE import Grid as G
+    a, b = np.array(cfg["a"], dtype=float), np.array(cfg["b"], dtype=float)
+    kind = cfg.get("grid", "Trapezoidal")
+    if kind == "ClenshawCurtis":
+        return G.ClenshawCurtisGrid(a=a, b=b, boundary=True)
+    if kind == "GaussLegendre":
+        return G.GaussLegendreGrid(a=a, b=b)
+    return G.TrapezoidalGrid(a=a, b=b, boundary=cfg["boundary"])
+
+
 def build(cfg, f, observer, reference=None, norm=np.inf):
     from sparseSpACE.spatiallyAdaptiveExtendSplit import SpatiallyAdaptiveExtendScheme
-    from sparseSpACE.Grid import TrapezoidalGrid
     from sparseSpACE.GridOperation import Integration
     a, b = np.array(cfg["a"], dtype=float), np.array(cfg["b"], dtype=float)
-    grid = TrapezoidalGrid(a=a, b=b, boundary=cfg["boundary"])
+    grid = make_grid(cfg)
     op = Integration(f=f, grid=grid, dim=cfg["d"], reference_solution=reference, print_level=100, log_level=100)
     cls = hooks.observed(SpatiallyAdaptiveExtendScheme)
     c = cls(a, b, number_of_refinements_before_extend=cfg["before_extend"], version=cfg["version"],
